@@ -126,10 +126,17 @@ ASSUME TrapCmd(Lnx, <<"", "KILL">>).k = "err" /\ TrapCmd(Lnx, <<"", "STOP">>).k 
 \* trap-y.sh: invalid signal name / number; trap-p.sh: trap '' ''
 ASSUME TrapCmd(Lnx, <<"-", "NOSUCHSIGNAL">>).k = "err" /\ TrapCmd(Lnx, <<"-", "-1">>).k = "err" /\ TrapCmd(Lnx, <<"", "">>).k = "err"
 \* trap - USR1; trap 'x' USR1 USR2; trap 2 QUIT (conditions 2 and QUIT)
-ASSUME TrapCmd(Lnx, <<"-", "USR1">>) = [k |-> "ok", conds |-> <<{"USR1"}>>]
-ASSUME TrapCmd(Lnx, <<"-", "2", "QUIT">>) = [k |-> "ok", conds |-> <<{"INT"}, {"QUIT"}>>]
+ASSUME TrapCmd(Lnx, <<"-", "USR1">>) = TrapR("ok", <<"USR1">>, <<{"USR1"}>>, "-")
+ASSUME TrapCmd(Lnx, <<"-", "2", "QUIT">>) = TrapR("ok", <<"2", "QUIT">>, <<{"INT"}, {"QUIT"}>>, "-")
+\* trap-p.sh:60-70 "initial numeric operand implies default trap": trap 'echo trapped' 2 QUIT; trap 2 QUIT
+ASSUME TrapCmd(Lnx, <<"2", "QUIT">>) = TrapR("ok", <<"2", "QUIT">>, <<{"INT"}, {"QUIT"}>>, "-")
+\* trap-p.sh:13 trap '' USR1 (ignore); trap-p.sh:123 trap 'false' USR1 (a command)
+ASSUME TrapCmd(Lnx, <<"", "USR1">>) = TrapR("ok", <<"USR1">>, <<{"USR1"}>>, "''")
+ASSUME TrapCmd(Lnx, <<"false", "USR1">>) = TrapR("ok", <<"USR1">>, <<{"USR1"}>>, "false")
+\* trap.md: "The action may be omitted if the first condition is a non-negative decimal integer"; 0 is EXIT
+ASSUME TrapCmd(Lnx, <<"0">>) = TrapR("ok", <<"0">>, <<{"EXIT"}>>, "-") /\ TrapCmd(Lnx, <<"15", "FOO">>).k = "err"
 \* trap -p QUIT USR1 TERM prints `trap -- 'echo Y' QUIT`, `trap -- 'echo X' USR1`, `trap -- - TERM`
-ASSUME TrapCmd(Lnx, <<"-p", "QUIT", "USR1", "TERM">>) = [k |-> "ok", conds |-> <<{"QUIT"}, {"USR1"}, {"TERM"}>>]
+ASSUME TrapCmd(Lnx, <<"-p", "QUIT", "USR1", "TERM">>) = TrapR("ok", <<"QUIT", "USR1", "TERM">>, <<{"QUIT"}, {"USR1"}, {"TERM"}>>, "''")
 ASSUME TrapLineOK(<<"trap", "--", "-", "TERM">>, {"TERM"}) /\ ~TrapLineOK(<<"trap", "--", "-", "SIGTERM">>, {"TERM"})
 \* trap.md example: `trap -p INT` prints `trap -- '' INT`
 ASSUME TrapLineOK(<<"trap", "--", "''", "INT">>, {"INT"})
@@ -144,6 +151,13 @@ ASSUME StatusReadings(Vrt, 0) = {} /\ StatusExact(Vrt, 0) = {}
 ASSUME StatusReadings(Vrt, 2) = {2} /\ StatusExact(Vrt, 2) = {}
 ASSUME StatusReadings(Vrt, 2 + 128) = {2} /\ StatusExact(Vrt, 2 + 128) = {}
 ASSUME StatusReadings(Vrt, 2 + 384) = {2} /\ StatusExact(Vrt, 2 + 384) = {2} /\ StatusExact(Vrt, 15 + 384) = {15}
+
+\* rustdoc of ExitStatus::to_signal: 384 first, then 128, then 0 (129 on the virtual system: HUP by 128 + 1, not XFSZ = 129)
+ASSUME StatusFirst(Vrt, 129) = 1 /\ StatusReadings(Vrt, 129) = {1, 129} /\ StatusFirst(Vrt, 386) = 2 /\ StatusFirst(Vrt, 130) = 2
+ASSUME StatusFirst(Vrt, 2) = 2 /\ StatusFirst(Vrt, 0) = -1 /\ StatusFirst(Vrt, 4) = -1
+\* XBD <signal.h>: default actions (T terminate: TERM; A with additional actions: QUIT; realtime: terminate)
+ASSUME DefAct(Lnx, 15) = "T" /\ DefAct(Lnx, 3) = "A" /\ DefAct(Lnx, 34) = "T" /\ DefAct(Lnx, 64) = "T" /\ DefAct(Lnx, 17) = "I"
+ASSUME DefAct(Lnx, 19) = "S" /\ DefAct(Lnx, 18) = "C" /\ DefAct(Lnx, 30) = "?"
 
 (***************************************************************************)
 (* rustdoc and unit tests of yash_env::signal (Name::as_string, FromStr)   *)
